@@ -6,6 +6,7 @@ package main
 
 import (
 	"fmt"
+	"sort"
 	"strings"
 
 	"gnoverif/kit"
@@ -818,7 +819,200 @@ func bpCase(o *kit.Out, r *kit.Rand, id string, n int, rounds int, emptyVals boo
 	}
 }
 
+// bpInnerRedistribute: the deterministic large-tree boundary case.  2000 sequential keys give a
+// three-level tree with uniformly filled leaves; thinning every other 31-key block by a varying
+// number of keys makes adjacent leaves (hence the first two children of every inner node) differ
+// in size; draining from the front then makes the first inner node underflow repeatedly and
+// borrow child subtrees from its RIGHT inner sibling (redistributeLeft, inner branch) before it
+// finally merges.  After every stage: index consistency, membership proofs, and non-membership
+// proofs for removed keys / between neighbours / before-first / after-last across the whole range.
+func bpInnerRedistribute(o *kit.Out, n, step, stages, sweepEvery int) {
+	keyOf := func(i int) []byte { return []byte(fmt.Sprintf("k%05d", i)) }
+	o.Case(fmt.Sprintf("bp-inner-redistribute-%d", n))
+	o.Op("bpnew")
+	present := make([]bool, n)
+	for i := 0; i < n; i++ {
+		o.Op("bpset %s %s", kit.Hex(keyOf(i)), kit.Hex([]byte(fmt.Sprintf("val%05d", i))))
+		present[i] = true
+	}
+	o.Op("bpcommit")
+	for b := 1; b*31+10 < n; b += 2 {
+		for j := 0; j < 2+b%5; j++ {
+			i := b*31 + 3 + j
+			o.Op("bpdel %s", kit.Hex(keyOf(i)))
+			present[i] = false
+		}
+	}
+	stage := 0
+	probe := func() {
+		o.Op("bpcommit")
+		o.Op("bpidx")
+		if stage%sweepEvery == 0 {
+			o.Op("bpsweep")
+		}
+		stage++
+		first := 0
+		for first < n && !present[first] {
+			first++
+		}
+		if first >= n {
+			return
+		}
+		o.Op("bpprove %s 4", kit.Hex(keyOf(first)))
+		o.Op("bpprove %s 4", kit.Hex(keyOf(n-1)))
+		o.Op("bpprove 61 4") // before-first
+		o.Op("bpprove 7a 4") // after-last
+		if first > 0 {
+			o.Op("bpprove %s 4", kit.Hex(keyOf(first-1))) // removed, just before the first key
+		}
+		for _, f := range []int{1, 2, 3, 4, 5, 6, 7} {
+			i := first + (n-1-first)*f/8
+			if present[i] {
+				o.Op("bpprove %s 4", kit.Hex(keyOf(i)))
+				o.Op("bpprove %s 4", kit.Hex(append(keyOf(i), '!'))) // between neighbours
+			} else {
+				o.Op("bpprove %s 4", kit.Hex(keyOf(i))) // a removed key
+			}
+		}
+	}
+	probe()
+	next := 0
+	for st := 0; st < stages && next+step < n-64; st++ {
+		for j := 0; j < step; j++ {
+			if present[next] {
+				o.Op("bpdel %s", kit.Hex(keyOf(next)))
+				present[next] = false
+			}
+			next++
+		}
+		probe()
+	}
+}
+
+// bpHistory (thorough): a large random tree, then drains of contiguous key ranges at the front,
+// in the middle and at the back that force inner-node redistributeLeft / redistributeRight and
+// merges; after each chunk: index consistency and proofs around every touched boundary.
+func bpHistory(o *kit.Out, r *kit.Rand, id string, n int) {
+	o.Case(id)
+	o.Op("bpnew")
+	seen := map[string]bool{}
+	var keys []string
+	sequential := r.Chance(35)
+	for len(keys) < n {
+		var k []byte
+		if sequential {
+			k = []byte(fmt.Sprintf("s%06d", len(keys)*3))
+		} else {
+			k = r.Bytes(r.Range(2, 9))
+		}
+		if seen[string(k)] {
+			continue
+		}
+		seen[string(k)] = true
+		keys = append(keys, string(k))
+		o.Op("bpset %s %s", kit.Hex(k), kit.Hex(r.Bytes(r.Range(1, 12))))
+	}
+	sortStrings(keys)
+	o.Op("bpcommit")
+	o.Op("bpidx")
+	if sequential {
+		// non-uniform leaves
+		for i := 40; i+40 < len(keys); i += r.Range(20, 70) {
+			m := r.Range(1, 9)
+			for j := 0; j < m && i < len(keys); j++ {
+				o.Op("bpdel %s", kit.Hex([]byte(keys[i])))
+				keys = append(keys[:i], keys[i+1:]...)
+			}
+		}
+	}
+	probeAround := func(i int) {
+		for _, j := range []int{i - 1, i, i + 1} {
+			if j < 0 || j >= len(keys) {
+				continue
+			}
+			k := []byte(keys[j])
+			o.Op("bpprove %s 4", kit.Hex(k))
+			o.Op("bpprove %s 4", kit.Hex(append(append([]byte{}, k...), 0)))
+			if len(k) > 1 {
+				o.Op("bpprove %s 4", kit.Hex(k[:len(k)-1]))
+			}
+		}
+	}
+	drains := r.Range(2, 4)
+	nchunk := 0
+	for d := 0; d < drains && len(keys) > 200; d++ {
+		var lo int
+		switch r.Intn(3) {
+		case 0:
+			lo = 0
+		case 1:
+			lo = r.Intn(len(keys) / 2)
+		default:
+			lo = len(keys) - 1
+		}
+		total := r.Range(len(keys)/6, len(keys)/2)
+		back := lo == len(keys)-1
+		for done := 0; done < total && len(keys) > 100; {
+			chunk := r.Range(30, 140)
+			var removed []string
+			for j := 0; j < chunk && len(keys) > 100; j++ {
+				at := lo
+				if back {
+					at = len(keys) - 1
+				}
+				if at >= len(keys) {
+					at = len(keys) - 1
+				}
+				o.Op("bpdel %s", kit.Hex([]byte(keys[at])))
+				removed = append(removed, keys[at])
+				keys = append(keys[:at], keys[at+1:]...)
+				done++
+			}
+			o.Op("bpcommit")
+			o.Op("bpidx")
+			if nchunk%4 == 0 {
+				o.Op("bpsweep")
+			}
+			nchunk++
+			at := lo
+			if back || at >= len(keys) {
+				at = len(keys) - 1
+			}
+			probeAround(at)
+			o.Op("bpprove %s 4", kit.Hex([]byte(removed[0])))
+			o.Op("bpprove %s 4", kit.Hex([]byte(removed[len(removed)-1])))
+			// far away from the drain: the per-child counts of every inner node are summed on the way
+			for _, f := range []int{1, 2, 3} {
+				probeAround(len(keys) * f / 4)
+			}
+			o.Op("bpprove 00 4")
+			o.Op("bpprove ffffffffffffffffffffffff 4")
+		}
+		// some re-insertions between drains
+		for j := 0; j < r.Range(0, 120); j++ {
+			k := r.Bytes(r.Range(2, 9))
+			if seen[string(k)] {
+				continue
+			}
+			seen[string(k)] = true
+			o.Op("bpset %s %s", kit.Hex(k), kit.Hex(r.Bytes(r.Range(1, 12))))
+			keys = append(keys, string(k))
+		}
+		sortStrings(keys)
+	}
+}
+
+func sortStrings(a []string) {
+	sort.Strings(a)
+}
+
 func genBP(o *kit.Out, r *kit.Rand, thorough bool) {
+	bpInnerRedistribute(o, 2000, 40, 30, map[bool]int{false: 3, true: 1}[thorough])
+	if thorough {
+		for c := 0; c < 3; c++ {
+			bpHistory(o, r, fmt.Sprintf("bp-history-%d", c), r.Range(1000, 5000))
+		}
+	}
 	o.Case("bp-empty-tree")
 	o.Op("bpnew")
 	o.Op("bpcommit")
